@@ -236,11 +236,14 @@ def sec_regressor(ck, hm):
     # FIR kernels vs Model.fir_kernel (exact)
     kt, km = [], []
     for osamp in (1, 2, 4, 16):
-        delays = [0, 1, 2, 3, 5]
+        delays = [3, 0, 5, 1, 1, 2] if osamp != 2 else [0, 1, 2, 3, 5]     # listing order and repeats are the caller's
         ks = hm._hrf_kernel("fir", 2.0, osamp, delays)
+        if len(ks) != len(delays):
+            ck.fail("kernel/fir-count", "_hrf_kernel('fir', fir_delays=%s) returns %d kernels for %d listed delays" % (delays, len(ks), len(delays)),
+                    {"fir_delays": delays, "oversampling": osamp, "n_kernels": len(ks)})
         for d, k in zip(delays, ks):
             kt.append("qlist_eqb (fir_kernel %s %s) %s" % (cnat(d), cnat(osamp), cql(np.asarray(k, float).tolist())))
-            km.append({"delay": d, "oversampling": osamp, "impl_kernel": np.asarray(k).tolist()})
+            km.append({"delay": d, "fir_delays": delays, "oversampling": osamp, "impl_kernel": np.asarray(k).tolist()})
             ck.count(("firk", d, osamp), bucket="kernel:fir")
     cases = []
     small = [(1.0, 5, -8.0), (2.0, 5, -8.0), (0.5, 9, -3.0), (1.0, 9, -24.0), (2.0, 3, -7.0), (1.0, 3, -1.5)]
@@ -257,7 +260,7 @@ def sec_regressor(ck, hm):
     for (TR, n, mo, model, osamp, kind, g) in cases:
         ft = TR * np.arange(n)
         on, du, va = gen_events(rng, ft, TR, mo, kind, TR / 64)
-        delays = [0, 1, 3] if model == "fir" else None
+        delays = [[0, 1, 3], [3, 0, 1], [1, 3, 0, 1], [3, 1, 0]][len(terms) % 4] if model == "fir" else None
         tr = float(ft.max()) / (n - 1)
         inp = {"frametimes": ft.tolist(), "hrf_model": model, "oversampling": osamp, "min_onset": mo, "fir_delays": delays,
                "onsets": on.tolist(), "durations": du.tolist(), "amplitudes": va.tolist()}
@@ -269,13 +272,18 @@ def sec_regressor(ck, hm):
         creg = np.asarray(creg, float)
         if creg.ndim == 1:
             creg = creg[:, None]
+        if not np.all(np.isfinite(creg)):
+            ck.fail("regressor/not-finite", "compute_regressor(%s) returns nan/inf" % model, inp)
+            continue
         ck.count(("reg", TR, n, mo, model, osamp, on.tolist(), du.tolist(), va.tolist()), nontrivial=bool(np.any(creg != 0)),
                  bucket="reg:%s:%s" % (model, "commensurate" if g["commensurate"] else "incommensurate"))
         fir = model == "fir"
         exact = fir and g["commensurate"]        # off-grid resampling divides by a step that is not a power of two
         eps = "0" if exact else "(1 # 10000000000)"
         cols = clist([cql(creg[:, j].tolist()) for j in range(creg.shape[1])])
-        hsT = clist([cql(np.asarray(h, float).tolist()) for h in hs])
+        # FIR: the kernels are the model's own, one per LISTED delay in listing order; gamma kernels are threaded in
+        hsT = ("(fir_kernels %s %s)" % (clist([cnat(d) for d in delays]), cnat(osamp)) if model == "fir"
+               else clist([cql(np.asarray(h, float).tolist()) for h in hs]))
         t = ("list_eqb (qlist_close %s) (compute_regressor %s %s %s %s %s %s) %s" % (
             eps, cql(ft.tolist()), cnat(osamp), cq(mo), hsT, cbool(fir), cevents(on, du, va), cols))
         terms.append(t)
@@ -342,7 +350,7 @@ def sec_convolve(ck, hm, dm, ep):
             # the last repetition on small grids goes through the oversampling-16 (gamma kernel) path
             fir = not (rep == reps - 1 and mo >= (-4 * TR if ck.thorough() else -TR) and n <= (9 if ck.thorough() else 5))
             model = "fir" if fir else ["canonical", "spm_time"][(n + int(-mo / TR)) % 2]
-            delays = fir_delay_set(n, TR, mo) if fir else [0]
+            delays = fir_delay_set(n, TR, mo, rng) if fir else [0]
             inp = {"frametimes": ft.tolist(), "hrf_model": model, "fir_delays": delays, "min_onset": mo, "paradigm_type": "block" if block else "event",
                    "con_id": con.tolist(), "onsets": on.tolist(), "durations": du.tolist(), "amplitudes": None if noamp else va.tolist()}
             try:
@@ -359,6 +367,34 @@ def sec_convolve(ck, hm, dm, ep):
                             ncols, [str(x) for x in names], nc, nbasis, "; every event of condition(s) %s has amplitude 0" % zero if zero else ""), inp)
                 continue
             X = np.asarray(X, float).reshape(n, -1)
+            if not np.all(np.isfinite(X)):
+                zero = [c for c in ids if np.all(va[con == c] == 0)]
+                ck.fail("convolve/not-finite/%s" % ("zero-regressor" if zero or np.any(np.all(np.nan_to_num(X) == 0, axis=0)) else "other"),
+                        "_convolve_regressors(%s) returns nan/inf in columns %s" % (model, np.where(~np.all(np.isfinite(X), axis=0))[0].tolist()), inp)
+                continue
+            if fir:
+                # column j of a condition's block is the regressor of the delay LISTED j-th and is named after that delay
+                want_names = ["%s_delay_%d" % (c, d) for c in sorted(ids) for d in delays]
+                if [str(x) for x in names] != want_names:
+                    ck.fail("convolve/fir-names-follow-listed-delays", "_convolve_regressors(fir_delays=%s) names its columns %s, expected %s" % (
+                        delays, [str(x) for x in names], want_names), inp)
+                bad = None
+                for ci, c in enumerate(sorted(ids)):
+                    selc = con == c
+                    for j, d in enumerate(delays):
+                        with warnings.catch_warnings():
+                            warnings.simplefilter("ignore")
+                            one, _ = hm.compute_regressor((on[selc], du[selc], va[selc]), "fir", ft, c, 1, [d], mo)
+                        if np.max(np.abs(np.asarray(one, float).reshape(n) - X[:, ci * len(delays) + j])) > 1e-12:
+                            bad = (c, j, d)
+                            break
+                    if bad:
+                        break
+                if bad:
+                    asc = delays == sorted(set(delays))
+                    ck.fail("convolve/fir-column-vs-listed-delay/%s" % ("ascending-delays" if asc else ("repeated-delay" if len(set(delays)) < len(delays) else "unsorted-delays")),
+                            "_convolve_regressors(fir_delays=%s): column %d of condition %r (named %s_delay_%d) is not the FIR regressor of delay %d" % (
+                                delays, bad[1], bad[0], bad[0], bad[2], bad[2]), inp)
             ck.count(("conv", TR, n, mo, model, tuple(delays), con.tolist(), on.tolist(), du.tolist(), va.tolist()),
                      nontrivial=bool(np.any(X != 0)),
                      bucket="convolve:%s:%s:min_onset%s" % (model, "block" if block else "event", "0" if mo == 0 else ("-24" if mo == -24 else "short")))
@@ -600,11 +636,23 @@ def witness_incommensurate(ck, hm):
                      "onsets": [onset], "k": 1, "regressor": a[:, 0].tolist(), "regressor_delayed_onsets": b[:, 0].tolist()})
 
 
-def fir_delay_set(n, TR, mo):
+def fir_delay_set(n, TR, mo, rng=None):
     """FIR delays: small ones, one just past the pre-scan window (-min_onset/TR scans), one near the run length, one past
     the run plus the pre-scan window (an all-zero column)."""
     pre = int(np.ceil(max(-mo, 0.0) / TR))
-    return sorted(set([0, 1, 3, min(pre + 2, n + pre + 1), max(n - 1, 0), n + pre + 1]))
+    ds = sorted(set([0, 1, 3, min(pre + 2, n + pre + 1), max(n - 1, 0), n + pre + 1]))
+    if rng is None:
+        return ds
+    # the delays are a LIST argument: listed ascending, descending, in arbitrary order, or with a delay listed twice
+    mode = int(rng.integers(0, 4))
+    if mode == 1:
+        ds = ds[::-1]
+    elif mode == 2:
+        ds = [ds[i] for i in rng.permutation(len(ds))]
+    elif mode == 3:
+        ds = [ds[i] for i in rng.permutation(len(ds))]
+        ds.insert(int(rng.integers(0, len(ds) + 1)), ds[int(rng.integers(0, len(ds)))])
+    return [int(d) for d in ds]
 
 
 def sec_oracles(ck, hm):
@@ -633,7 +681,7 @@ def sec_oracles(ck, hm):
             for osamp in osamps:
                 g = grid_facts(TR, n, f0, mo, osamp)
                 tag = "commensurate-grid" if g["commensurate"] else "incommensurate-grid"
-                delays = fir_delay_set(n, TR, mo) if model == "fir" else None
+                delays = fir_delay_set(n, TR, mo, rng) if model == "fir" else None
                 for rep in range(reps):
                     kind = KINDS[(rep + n + len(model)) % len(KINDS)]
                     quantum = TR / 64 if g["exact_floats"] else TR / 50
@@ -644,6 +692,13 @@ def sec_oracles(ck, hm):
                     try:
                         full = guarded(ck, "compute_regressor", base, col0, hm, (on, du, va), model, ft, osamp, delays, mo)
                     except ImplRaised:
+                        continue
+                    if model == "fir" and full.shape[1] != len(delays):
+                        ck.fail("fir/column-count/%s" % ("repeated-delay" if len(set(delays)) < len(delays) else "distinct-delays"),
+                                "compute_regressor('fir', fir_delays=%s) returns %d columns for %d listed delays" % (delays, full.shape[1], len(delays)), base)
+                        continue
+                    if not np.all(np.isfinite(full)):
+                        ck.fail("regressor/not-finite", "compute_regressor(%s) returns nan/inf" % model, base)
                         continue
                     scale = max(1.0, float(np.max(np.abs(full))))
                     ck.count(("or", TR, n, f0, mo, model, osamp, on.tolist(), du.tolist(), va.tolist()),
@@ -1003,8 +1058,9 @@ def sec_dmtx(ck, hm, dm, ep):
             add[:, 1] = add[:, 0]
         elif nadd and variant == "user-column-of-ones":
             add[:, 1] = 1.0
-        addn = ["mot_%d" % i for i in range(nadd)] if named else None
-        delays = [0, 2, 3]
+        # list-valued arguments in arbitrary (not ascending) order: user regressor names, FIR delays
+        addn = [["mot_0", "mot_1"], ["mot_1", "mot_0"], ["z_reg", "a_reg"], ["reg1", "reg0"]][nd % 4][:nadd] if named else None
+        delays = [[0, 2, 3], [3, 0, 2], [2, 3, 0], [3, 2, 0]][(nd // 2) % 4]
         rep0 = {"frametimes": "%g + %g*arange(%d)" % (start, TR, n), "condition_ids": ids, "hrf_model": model, "drift_model": dmodel, "hfcut": hfcut,
                 "drift_order": order}
         try:
